@@ -1,0 +1,196 @@
+// Copyright 2025 BINARY Members
+//
+// Licensed under the Apache License, Version 2.0 (the "License");
+// you may not use this file except in compliance with the License.
+// You may obtain a copy of the License at
+//
+//     http://www.apache.org/licenses/LICENSE-2.0
+//
+// Unless required by applicable law or agreed to in writing, software
+// distributed under the License is distributed on an "AS IS" BASIS,
+// WITHOUT WARRANTIES OR CONDITIONS OF ANY KIND, either express or implied.
+// See the License for the specific language governing permissions and
+// limitations under the License.
+
+//go:build verif
+
+// Read-only views and entry points for the external verification harness.
+// Nothing in this file is compiled without the build tag "verif".
+
+package originium
+
+import (
+	"container/list"
+	"time"
+
+	"github.com/B1NARY-GR0UP/originium/pkg/logger"
+	"github.com/B1NARY-GR0UP/originium/table"
+	"github.com/B1NARY-GR0UP/originium/types"
+)
+
+// verifNames names of the sstable files behind the elements
+func (lm *levelManager) verifNames(levelA int, a []*list.Element, levelB int, b []*list.Element) []string {
+	var names []string
+	for _, e := range a {
+		names = append(names, lm.fileName(levelA, e.Value.(tableHandle).levelIdx))
+	}
+	for _, e := range b {
+		names = append(names, lm.fileName(levelB, e.Value.(tableHandle).levelIdx))
+	}
+	return names
+}
+
+// VerifOracle snapshot of the oracle counters
+type VerifOracle struct {
+	NextTs         uint64
+	LastCleanUpTs  uint64
+	CommittedTxns  int
+	ReadDoneUntil  uint64
+	CommitDoneUtil uint64
+}
+
+func (db *DB) VerifOracle() VerifOracle {
+	db.oracle.Lock()
+	defer db.oracle.Unlock()
+	return VerifOracle{
+		NextTs:         db.oracle.nextTs,
+		LastCleanUpTs:  db.oracle.lastCleanUpTs,
+		CommittedTxns:  len(db.oracle.committedTxns),
+		ReadDoneUntil:  db.oracle.readMark.DoneUntil(),
+		CommitDoneUtil: db.oracle.commitMark.DoneUntil(),
+	}
+}
+
+// VerifWaitMarks waits until both watermarks processed every mark sent so far:
+// a probe Begin/Done pair at ts 0 cannot change DoneUntil, marks are handled in channel order
+func (db *DB) VerifWaitMarks(read, commit uint64) bool {
+	deadline := time.Now().Add(10 * time.Second)
+	for time.Now().Before(deadline) {
+		if db.oracle.readMark.DoneUntil() == read && db.oracle.commitMark.DoneUntil() == commit {
+			return true
+		}
+		time.Sleep(50 * time.Microsecond)
+	}
+	return false
+}
+
+// VerifImmutables number of immutable memtables which are still visible to readers
+func (db *DB) VerifImmutables() int {
+	db.mu.RLock()
+	defer db.mu.RUnlock()
+	return db.immutables.Len()
+}
+
+// VerifMemtableSize size of the active memtable
+func (db *DB) VerifMemtableSize() int {
+	db.mu.RLock()
+	defer db.mu.RUnlock()
+	return db.memtable.size()
+}
+
+// VerifGenerations entries of the active memtable followed by the immutables from newest to oldest
+func (db *DB) VerifGenerations() [][]types.Entry {
+	db.mu.RLock()
+	defer db.mu.RUnlock()
+	res := [][]types.Entry{db.memtable.all()}
+	for e := db.immutables.Back(); e != nil; e = e.Prev() {
+		res = append(res, e.Value.(*memtable).all())
+	}
+	return res
+}
+
+// VerifTables the tables of the level manager
+func (db *DB) VerifTables() []VerifTable {
+	return db.manager.verifTables()
+}
+
+// VerifReadTs read timestamp of a transaction
+func (t *Txn) VerifReadTs() uint64 {
+	return t.readTs
+}
+
+// VerifTable one sstable as the level manager sees it
+type VerifTable struct {
+	Level   int
+	Idx     int
+	Name    string
+	Index   table.Index
+	Entries []types.Entry
+}
+
+func (lm *levelManager) verifTables() []VerifTable {
+	lm.mu.Lock()
+	defer lm.mu.Unlock()
+	var res []VerifTable
+	for level, tables := range lm.levels {
+		for e := tables.Front(); e != nil; e = e.Next() {
+			th := e.Value.(tableHandle)
+			data := lm.fetch(level, th.levelIdx, th.dataBlockIndex.DataBlock)
+			res = append(res, VerifTable{
+				Level:   level,
+				Idx:     th.levelIdx,
+				Name:    lm.fileName(level, th.levelIdx),
+				Index:   th.dataBlockIndex,
+				Entries: data.Entries,
+			})
+		}
+	}
+	return res
+}
+
+// VerifLevels a level manager over a directory with a chosen discard watermark, without memtables and without a flusher
+type VerifLevels struct {
+	db *DB
+	lm *levelManager
+}
+
+func NewVerifLevels(dir string, l0TargetNum, ratio, dataBlockSize int, low uint64) *VerifLevels {
+	db := &DB{
+		dir:    dir,
+		logger: logger.GetLogger(),
+		oracle: newOracle(),
+		config: Config{
+			L0TargetNum:            l0TargetNum,
+			LevelRatio:             ratio,
+			DataBlockByteThreshold: dataBlockSize,
+		},
+	}
+	if low > 0 {
+		db.oracle.readMark.Done(low)
+		for db.oracle.readMark.DoneUntil() != low {
+			time.Sleep(20 * time.Microsecond)
+		}
+	}
+	lm := newLevelManager(db)
+	db.manager = lm
+	return &VerifLevels{db: db, lm: lm}
+}
+
+func (v *VerifLevels) Stop() {
+	v.db.oracle.Stop()
+}
+
+func (v *VerifLevels) FlushToL0(kvs []types.Entry) error {
+	return v.lm.flushToL0(kvs)
+}
+
+func (v *VerifLevels) CheckAndCompact() {
+	v.lm.checkAndCompact()
+}
+
+func (v *VerifLevels) Recover() int64 {
+	return v.lm.recover()
+}
+
+func (v *VerifLevels) SearchLowerBound(key types.Key) (types.Entry, bool) {
+	return v.lm.searchLowerBound(key)
+}
+
+func (v *VerifLevels) Tables() []VerifTable {
+	return v.lm.verifTables()
+}
+
+// VerifStopOracle stops the watermark goroutines of a closed db
+func (db *DB) VerifStopOracle() {
+	db.oracle.Stop()
+}
